@@ -23,7 +23,17 @@ type runSpec struct {
 	Grid     func(sc Scenario, thorough bool) [][]int // enumerated histories instead of a search
 }
 
+// extraResult is what a non-search part of a check (e.g. the DeliverTx matrix of C06) reports.
+type extraResult struct {
+	Name    string
+	Evals   int64
+	Samples []interface{}
+	Viols   []Viol
+	Info    map[string]interface{}
+}
+
 type propSpec struct {
+	Extra   func(thorough bool) (extraResult, error)
 	Checker func() Checker
 	Runs    []runSpec
 	Assume  []string
@@ -41,6 +51,27 @@ func init() {
 		Runs: []runSpec{{"S-escrow", 5, 7, nil}, {"S-leased", 5, 6, nil}, {"S-life", 4, 6, nil}}}
 	props["C02"] = propSpec{Checker: func() Checker { return chkC02{} }, Assume: common,
 		Runs: []runSpec{{Scenario: "S-grid", Grid: gridHistories}, {"S-meter", 6, 8, nil}, {"S-escrow", 5, 7, nil}, {"S-leased", 5, 6, nil}}}
+	props["C06"] = propSpec{Checker: func() Checker { return chkC06{} }, Assume: []string{
+		"confinement is checked on the message-service path; the signature/ante path is checked separately through real signed DeliverTx (part ante-matrix)",
+		"bounded: S-collide (7 deployments with dseq 1,12,256,257,65536 over two owners, leases, bids) to the stated depth, plus S-life"},
+		Extra: func(th bool) (extraResult, error) {
+			cases, viols, err := CheckAnte()
+			var smp []interface{}
+			acc, rej := 0, 0
+			for i, c := range cases {
+				if c.Code == 0 {
+					acc++
+				} else {
+					rej++
+				}
+				if i%29 == 0 {
+					smp = append(smp, c)
+				}
+			}
+			return extraResult{Name: "ante-matrix", Evals: int64(len(cases)), Samples: smp, Viols: viols,
+				Info: map[string]interface{}{"deliver_tx_cases": len(cases), "accepted": acc, "rejected": rej}}, err
+		},
+		Runs: []runSpec{{"S-collide", 3, 4, nil}, {"S-life", 4, 5, nil}}}
 	props["C03"] = propSpec{Checker: func() Checker { return chkC03{} }, Assume: common,
 		Runs: []runSpec{{"S-escrow", 5, 7, nil}, {"S-leased", 5, 6, nil}, {"S-life", 4, 6, nil}}}
 	props["C04"] = propSpec{Checker: func() Checker { return chkC04{} }, Assume: common,
@@ -160,6 +191,38 @@ func main() {
 	nviol := 0
 	exit := 0
 	n := 0
+	var extraInfo map[string]interface{}
+	if ps.Extra != nil && *scOnly == "" {
+		er, err := ps.Extra(*tier == "thorough")
+		if err != nil {
+			fmt.Fprintln(os.Stderr, "chainmc: extra:", err)
+			os.Exit(2)
+		}
+		fmt.Printf("chainmc %s %s: evaluations=%d violations=%d\n", *prop, er.Name, er.Evals, len(er.Viols))
+		tot.Transitions += er.Evals
+		samples = append(samples, er.Samples...)
+		extraInfo = er.Info
+		seen := map[string]bool{}
+		for _, v := range er.Viols {
+			if seen[v.Inv+"|"+v.Sig] {
+				continue
+			}
+			seen[v.Inv+"|"+v.Sig] = true
+			if kf, k := findings.Known(*prop, v.Inv+"|"+v.Sig); k {
+				fmt.Printf("KNOWN-FINDING: property=%s %s [%s]\n", *prop, kf.What, v.Inv+"|"+v.Sig)
+				continue
+			}
+			n++
+			nviol++
+			path, err := evlib.WriteReplay(*prop, n, map[string]interface{}{"property": *prop, "part": er.Name, "invariant": v.Inv, "signature": v.Sig, "message": v.Msg})
+			if err != nil {
+				fmt.Fprintln(os.Stderr, "chainmc:", err)
+				os.Exit(2)
+			}
+			fmt.Printf("VIOLATION property=%s replay=%s\n  invariant %s [%s]: %s\n", *prop, path, v.Inv, v.Sig, v.Msg)
+			exit = 1
+		}
+	}
 	for _, f := range all {
 		scName := strings.TrimPrefix(f.Names[0], "scenario:")
 		hist := f.Names[1:]
@@ -213,7 +276,7 @@ func main() {
 				Extra: map[string]interface{}{"runs": perRun, "tx_ok": tot.TxOK, "tx_failed": tot.TxFail, "max_depth": tot.MaxDepth,
 					"state_oracle_evaluations": tot.StateChecks, "transition_oracle_evaluations": tot.TransChecks,
 					"traces_validated_note": "the model is the implementation: every transition is an execution of the real handler, so every explored trace is validated against the implementation by construction",
-					"known_findings_hit": len(all) - nviol},
+					"known_findings_hit": len(all) - nviol, "extra": extraInfo},
 			}}
 		if len(ev.Coverage.Samples) == 0 {
 			ev.Coverage.Samples = []interface{}{"(no frontier left: search closed before the bound)"}
